@@ -186,6 +186,9 @@ func init() {
 						e["out"] = string(o)
 						o2, e2 := formatter.Format(o, cfg)
 						e["idem"] = e2 == nil && string(o2) == string(o)
+						if e2 == nil && string(o2) != string(o) {
+							e["out2"] = string(o2)
+						}
 						oe, oerr := rdparser.New(token.NewScannerString("o", string(o))).ParseProgram()
 						e["reads"] = readerResult(oe, oerr)
 						e["comments_in"] = commentTexts(in.Text)
